@@ -136,6 +136,10 @@ func (k *fakeKDC) serveUDP() {
 		if k.udpMode == "reply" {
 			k.uc.WriteTo(k.reply, addr)
 		}
+		if k.udpMode == "echo" {
+			// a reply that depends on the request: concurrent requests get distinguishable answers
+			k.uc.WriteTo(append([]byte("<echo:"), append(append([]byte(nil), buf[:n]...), '>')...), addr)
+		}
 	}
 }
 
@@ -268,6 +272,51 @@ func streamC20(env *runEnv) {
 			}
 		}
 	}()
+	// concurrent requests answered over UDP, each with its own reply
+	{
+		es := newKdcSet(dir, "udp-echo", [][2]string{{"refuse", "echo"}})
+		var wg sync.WaitGroup
+		bad := make([]string, 16)
+		per := 12
+		if env.thorough() {
+			per = 120
+		}
+		for w := 0; w < 16; w++ {
+			wg.Add(1)
+			go func(w int) {
+				defer wg.Done()
+				for i := 0; i < per; i++ {
+					msg := []byte(fmt.Sprintf("<request-%d-%d-%s>", w, i, strings.Repeat("x", 20+i)))
+					kmsg := append([]byte{0, 0, 0, byte(len(msg))}, msg...)
+					body, _ := asn1.Marshal(kdcProxyMsg{Message: kmsg})
+					st, resp, _, _ := kdcRequest(es, "POST", body, false)
+					var out kdcProxyMsg
+					want := append([]byte("<echo:"), append(append([]byte(nil), msg...), '>')...)
+					if st != 200 {
+						bad[w] = fmt.Sprintf("status-%d", st)
+						return
+					}
+					if _, err := asn1.Unmarshal(resp, &out); err != nil || len(out.Message) < 4 || string(out.Message[4:]) != string(want) {
+						bad[w] = "reply-of-another-request-or-altered"
+						return
+					}
+				}
+			}(w)
+		}
+		wg.Wait()
+		verdict := "exact"
+		for _, b := range bad {
+			if b != "" {
+				verdict = b
+			}
+		}
+		env.count("c20.concurrent-udp." + verdict)
+		env.emit("exact", fmt.Sprintf("16-concurrent-clients-x-%d-requests-answered-over-udp", per), verdict)
+		for _, k := range es.kdcs {
+			k.stop()
+		}
+		go func() { es.srv.CloseClientConnections(); es.srv.Close() }()
+	}
 	type job struct {
 		set     *kdcSet
 		method  string
